@@ -265,6 +265,10 @@ func havocNative(v reflect.Value, depth int) {
 // Abort stops the running operation like a process kill (no deferred function runs); CatchAbort(f) runs f and reports
 // whether it was aborted. Engine only.
 func Abort() { panic("zzvf.Abort has no native meaning") }
+
+// OnLock registers f to be called before every sync.Mutex / sync.RWMutex Lock and RLock of the code under test (a
+// scheduling point: the harness may run another request there); nil unregisters. f is not re-entered. Engine only.
+func OnLock(f func(op string)) {}
 func CatchAbort(f func()) bool {
 	f()
 	return false
